@@ -90,6 +90,11 @@ def run(ctx, scratch):
                     # seeds / sources, just by giving them (source_row / values_col ... imply the bipartite treatment)
                     if not (d['seeds'] in ('weights', 'values', 'labels', 'sources') and (rep // 3) % 4 != 3):
                         opts['force_bipartite'] = True
+                no_seeds = name == 'Propagation' and rep % 6 == 4
+                if no_seeds:
+                    # no label at all (None on every side): the documented clustering mode, in which every node starts with a label of
+                    # its own - in both forms
+                    opts = {k_: v_ for k_, v_ in opts.items() if k_ not in ('seeds', 'seed_side')}
                 if d['seeded']:
                     opts.setdefault('params', {})['random_state'] = 3
                 if name in VARIANTS:
@@ -100,7 +105,7 @@ def run(ctx, scratch):
                     for sd in opts.get('seeds', {}).values():
                         vals = sd['dict'].values() if isinstance(sd, dict) and 'dict' in sd else ((sd.get('array') or sd.get('farray')) if isinstance(sd, dict) else sd)
                         labs |= {v for v in vals if v >= 0}
-                    if len(labs) < 2:
+                    if len(labs) < 2 and not no_seeds:
                         continue
                 a = impl.call('registry', 'run', dict(name=name, m=spec, opts=opts), timeout=60)
                 b = impl.call('registry', 'run', dict(name=name, m=s2, opts=o2), timeout=60)
